@@ -26,16 +26,25 @@ class WorkflowContext:
     def __init__(self, task: Task):
         """Initialize the workflow helper with its associated task."""
         self.task = task
-        self._deterministic: DeterministicExecutor | None = None
 
     @property
     def deterministic(self) -> DeterministicExecutor:
-        """Get the deterministic executor for this workflow context."""
-        if self._deterministic is None:
-            self._deterministic = DeterministicExecutor(
-                self.task.invocation.workflow, self.task.app
-            )
-        return self._deterministic
+        """Get the deterministic executor of the execution that is running now.
+
+        ``Task.wf`` is cached per task object, which is shared by every invocation of
+        that task in the process. The executor (workflow identity and replay counters)
+        therefore lives on the running invocation object: every execution - a retry, a
+        recovery re-run or another workflow of the same task - starts its own replay
+        from the first operation of its own workflow.
+        """
+        invocation = self.task.invocation
+        executor: DeterministicExecutor | None = getattr(
+            invocation, "_deterministic_executor", None
+        )
+        if executor is None:
+            executor = DeterministicExecutor(invocation.workflow, self.task.app)
+            invocation._deterministic_executor = executor  # type: ignore[attr-defined]
+        return executor
 
     @property
     def app(self) -> Pynenc:
